@@ -20,7 +20,7 @@ const (
 	// ContentTypeAudio represents audio content type
 	ContentTypeAudio = "audio"
 	// ContentTypeEmbeddedResource represents embedded resource content type
-	ContentTypeEmbeddedResource = "embedded_resource"
+	ContentTypeEmbeddedResource = "resource"
 )
 
 // MCP protcol Layer
